@@ -12,6 +12,7 @@ import Hw.Topo.RenderTop
 import Hw.Topo.RenderSets
 import Hw.Topo.RenderPU
 import Hw.Topo.RestrictExists
+import Hw.Topo.RestrictAllowed
 import Hw.Topo.WF
 import Driver.Topo
 import Driver.Util
@@ -147,7 +148,9 @@ def verdict (st : State) (c : Call) (bd : Dump) (braw : List (List String)) (ad 
       -- by the PUs / NUMA nodes), evaluated on every WF BEFORE dump
       (if (puNsT tree && puLevelLast tree) || !wfB.isEmpty then [] else ["hypothesis-pu-level-last-fails-on-a-WF-before-dump"]) ++
       (if (coverT topo.allowedCpu tPU tree && coverT topo.allowedNode tNUMA tree) || !wfB.isEmpty then []
-        else ["hypothesis-allowed-sets-covered-fails-on-a-WF-before-dump"])
+        else ["hypothesis-allowed-sets-covered-fails-on-a-WF-before-dump"]) ++
+      -- B2: C08_restrict_allowed_sets, first part: the tree-level clause allowed-sets holds for every WF BEFORE dump
+      (if allowedOKT topo (flagIncludeDisallowed bd) || !wfB.isEmpty then [] else ["hypothesis-allowedOK-fails-on-a-WF-before-dump"])
     let (topo', ret) := restrict topo c.set c.flags
     match ret with
     | .rootRemoved => ("MODEL-UNDEFINED root-would-be-removed", .unknown)
@@ -178,6 +181,9 @@ def verdict (st : State) (c : Call) (bd : Dump) (braw : List (List String)) (ad 
         -- model's result is its last level, a planned call has a protected object of its own kind, and the model's result and
         -- hwloc's result both keep a PU and a NUMA node
         (if (puNsT topo'.tree && puLevelLast topo'.tree) || !(typedT tree && puLeafT tree) then [] else ["pu-level-not-last-after"]) ++
+        -- … and its second part: preserved by the call (the model's allowed sets are compared with hwloc's above)
+        (if allowedOKT topo' (flagIncludeDisallowed bd) || !(allowedOKT topo (flagIncludeDisallowed bd) && okT tree && typedT tree && puLeafT tree)
+          then [] else ["allowedOK-not-preserved"]) ++
         (if wfB.isEmpty then
           (match plan topo c.set c.flags with
            | none => []
